@@ -2135,3 +2135,34 @@ package gomatrixserverlib
 //@   requires d != nil
 //@   loop 3: invariant chanSent(pending) == count(3) && chanCap(pending) == len(byServer) && !chanClosed(pending) && pending != nil
 //@   loop 4: invariant 0 <= i && i <= numWorkers && wgSpawned(wait) == i && wgExpected(wait) == numWorkers
+
+// ---- RoomVersionImpl: the function-valued table entries are what the interface methods run (C17)
+//@ func (RoomVersionImpl).SignatureValidityCheck
+//@   property C17, C18:safety
+//@   requires v.signatureValidityCheckFunc != nil
+//@   purecallbacks
+//@   ensures delegates-to-table-entry: result == v.signatureValidityCheckFunc(atTS, validUntilTS)
+
+//@ func (RoomVersionImpl).CheckKnockingAllowed
+//@   property C17, C18:safety
+//@   requires v.checkKnockingAllowedFunc != nil
+//@   purecallbacks
+//@   ensures delegates-to-table-entry: result == v.checkKnockingAllowedFunc(roomVer, sender, target, joinRule, prevMembership)
+
+//@ func (RoomVersionImpl).CheckRestrictedJoinsAllowed
+//@   property C17, C18:safety
+//@   requires v.checkRestrictedJoinAllowedFunc != nil
+//@   purecallbacks
+//@   ensures delegates-to-table-entry: result == v.checkRestrictedJoinAllowedFunc()
+
+//@ func (RoomVersionImpl).RestrictedJoinServername
+//@   property C17, C18:safety
+//@   requires v.restrictedJoinServernameFunc != nil
+//@   purecallbacks
+//@   ensures delegates-to-table-entry: result == v.restrictedJoinServernameFunc(content)
+
+//@ func (RoomVersionImpl).CheckCanonicalJSON
+//@   property C17, C01, C18:safety
+//@   requires v.canonicalJSONCheck != nil
+//@   purecallbacks
+//@   ensures delegates-to-table-entry: result == v.canonicalJSONCheck(eventJSON)
